@@ -117,6 +117,12 @@ class HassebDALIUSBDriver(DALIDriver):
         raise NotImplementedError()
 
     def construct(self, command):
+        if len(command.frame) != 16:
+            # The packet always announces a 16 bit frame; anything else
+            # (including shorter frames, which would otherwise be sent
+            # zero-extended) cannot be carried
+            raise ValueError(
+                'Unknown frame length: {}'.format(len(command.frame)))
         # sequence number
         self.sn = self.sn+1
         if self.sn > 255:
